@@ -15,6 +15,18 @@ def run(pid, tier, seed, replay=None):
     def tie(res):
         t = C.evaluate(pid, seed, tier)
         t['tie'] = 'D: ' + what
+        if pid in ('C15', 'C16'):
+            # the executable cache model is replayed on the slot states of the real caches
+            from . import cachetrace as CTR
+            hs = C.gen_suite(seed, tier)
+            runs = C.run_many(hs)
+            ct = CTR.check(pid, hs, runs, tier[0])
+            t['failures'] = t.get('failures', []) + ct['failures']
+            if ct.get('msg') and not t.get('msg'):
+                t['msg'] = ct['msg']; t['ok'] = False
+            t['validated'] = t.get('validated', 0) + ct['validated']
+            t.setdefault('extra', {})['cache_replay'] = ct['stats']
+            t['tie'] += '; the slot touched by every cache operation of the real %s (main-context and handler-context, re-entrant ones attributed to the eviction send they happened in) is compared with Cache.contribute / contribute_inner evaluated by vm_compute on the same sequence' % ('counting_set' if pid == 'C15' else 'reducing adapter (single-node layouts)')
         if pid == 'C11':
             # swap and clear of map_impl: exercised through tagged_bag (a map with generated keys) against coq/Bag.v
             from . import bags as BG
